@@ -18,12 +18,13 @@ class Spin(BaseException):
 class SimSocket:
     SPIN_LIMIT = 2000
 
-    def __init__(self, events=(), tail="eof", accepts=None, send_fail_after=None):
+    def __init__(self, events=(), tail="eof", accepts=None, send_fail_after=None, eagain=None):
         self.events = [tuple(e) for e in events]
         self.tail = tail
         self.accepts = list(accepts) if accepts else None   # short-write pattern (cyclic)
         self.acc_i = 0
         self.send_fail_after = send_fail_after             # raise on the n-th send call (0-based)
+        self.eagain = set(eagain or ())                    # send calls (0-based) that find the send buffer full: EAGAIN
         self.log = []            # ("recv", n, result) / ("send", data, accepted) / ("close",) ...
         self.sent = bytearray()
         self.recv_sizes = []
@@ -39,6 +40,14 @@ class SimSocket:
         self.clock = 0           # virtual milliseconds
         self.calls = 0           # transport calls of any kind (recv, send, close, shutdown)
         self.step_recvs = []     # number of recv calls so far, recorded by session.run_impl after every step
+
+    def _no_data(self):
+        """what a real socket raises when nothing arrives: socket.timeout after the timeout, or — on a NON-BLOCKING
+        socket (timeout 0) — BlockingIOError(EAGAIN) at once."""
+        if self.timeout == 0:
+            import errno
+            return BlockingIOError(errno.EAGAIN, "Resource temporarily unavailable")
+        return socket.timeout("timed out")
 
     def timeout_ms(self):
         return None if self.timeout is None else int(round(self.timeout * 1000))
@@ -81,7 +90,7 @@ class SimSocket:
                     self.recv_sizes.append(n)
                     self.clock += t
                     self.log.append(("recv", n, "timeout"))
-                    raise socket.timeout("timed out")
+                    raise self._no_data()
                 self.clock += ev[1]
                 self.events.pop(0)
             else:
@@ -92,7 +101,7 @@ class SimSocket:
             if self.tail == "timeout":
                 self.clock += self.timeout_ms() or 0
                 self.log.append(("recv", n, "timeout"))
-                raise socket.timeout("timed out")
+                raise self._no_data()
             self.log.append(("recv", n, b""))
             self.empty_reads += 1
             if self.empty_reads > self.SPIN_LIMIT:
@@ -113,7 +122,7 @@ class SimSocket:
         if ev[0] == "timeout":
             self.clock += self.timeout_ms() or 0
             self.log.append(("recv", n, "timeout"))
-            raise socket.timeout("timed out")
+            raise self._no_data()
         if ev[0] == "eof":
             self.events = []
             self.tail = "eof"
@@ -133,6 +142,10 @@ class SimSocket:
         if self.closed:
             self.log.append(("send", bytes(data), "EBADF"))
             raise OSError(9, "Bad file descriptor")
+        if i in self.eagain:
+            import errno
+            self.log.append(("send", b"", "EAGAIN"))
+            raise BlockingIOError(errno.EAGAIN, "Resource temporarily unavailable")
         if self.send_fail_after is not None and i >= self.send_fail_after:
             self.log.append(("send", bytes(data), "EPIPE"))
             raise BrokenPipeError(32, "Broken pipe")
@@ -198,3 +211,38 @@ def make_ws(events=(), tail="eof", accepts=None, mask_key=None, **kw):
     if mask_key is not None:
         ws.set_mask_key(lambda n: mask_key)
     return ws, sock
+
+
+class _WritableSelector:
+    """stands in for selectors.DefaultSelector inside websocket._socket: the socket becomes writable at once."""
+
+    def register(self, sock, events):
+        self.sock = sock
+
+    def select(self, timeout=None):
+        return [(None, 2)]
+
+    def close(self):
+        pass
+
+    def __enter__(self):
+        return self
+
+    def __exit__(self, *a):
+        return False
+
+
+import contextlib
+
+
+@contextlib.contextmanager
+def writable_selector():
+    """the would-block / retry path of `_socket.send` on simulated sockets (which have no real descriptor)."""
+    import types
+    import websocket._socket as S
+    saved = S.selectors
+    S.selectors = types.SimpleNamespace(DefaultSelector=_WritableSelector, EVENT_WRITE=saved.EVENT_WRITE, EVENT_READ=saved.EVENT_READ)
+    try:
+        yield
+    finally:
+        S.selectors = saved
